@@ -30,23 +30,38 @@ Definition filt_ok2 (d : rdef) : Prop :=
   | _ => True
   end.
 
-Record Sok (s : session) : Prop := {
+(* the invariant, with the list-id stack as a ghost parameter *)
+Record SokG (L : list str) (s : session) : Prop := {
   so_env : ienv_ok (ienv_of s);
   so_filt : Forall filt_ok2 (s_repls s);
   so_dblocks : Forall dok (s_dblocks s);
   so_classes : rfree (p_classes s);
   so_id : rfree (p_id s);
   so_css : rfree (p_css s);
-  so_attrs : rfree (p_attrs s) }.
+  so_attrs : rfree (p_attrs s);
+  so_listids : s_listids s = L }.
+Arguments so_env {L} s _.
+Arguments so_filt {L} s _.
+Arguments so_dblocks {L} s _.
 
-(* the exceptions that can escape: the two inline ones, the list-stack underflow (known finding), and the case that the
-   pattern of a content filter (indented paragraph, macro definition) does not match what its block pattern matched *)
+(* the exceptions that can escape: the two inline ones, and the case that the pattern of a content filter (indented
+   paragraph, macro definition) does not match what its block pattern matched *)
 Definition blk_exn (e : exn) : Prop :=
-  e = ExIntTooLong \/ e = ExUnsupported \/ e = ExPopEmpty \/ e = ExFilter.
+  e = ExIntTooLong \/ e = ExUnsupported \/ e = ExFilter.
 Ltac bx := unfold blk_exn; tauto.
 
-Definition tok {A} (Q : A -> Prop) (m : M A) : Prop :=
-  forall s, Sok s -> match m s with Ok (a, s') => Q a /\ Sok s' | Raise e => blk_exn e | Fuel => True end.
+(* from a good session with list-id stack L1: a value satisfying Q and a good session with stack L2, or an allowed failure *)
+Definition tokLL {A} (L1 L2 : list str) (Q : A -> Prop) (m : M A) : Prop :=
+  forall s, SokG L1 s -> match m s with Ok (a, s') => Q a /\ SokG L2 s' | Raise e => blk_exn e | Fuel => True end.
+
+(* the same without a claim on the stack (nested document.render resets it) *)
+Definition tokR {A} (Q : A -> Prop) (m : M A) : Prop :=
+  forall L s, SokG L s -> match m s with Ok (a, s') => Q a /\ (exists L', SokG L' s') | Raise e => blk_exn e | Fuel => True end.
+
+Section WithL.
+Variable L : list str.
+Local Notation Sok := (SokG L).
+Local Notation tok := (tokLL L L).
 
 Lemma tok_ret {A} (Q : A -> Prop) a : Q a -> tok Q (ret a).
 Proof. intros H s Hs. simpl. auto. Qed.
@@ -82,7 +97,7 @@ Lemma tok_seq {A B} (Q : B -> Prop) (m : M A) (k : M B) : tok (fun _ => True) m 
 Proof. intros Hm Hk. eapply tok_bind; [exact Hm|]. intros _ _. exact Hk. Qed.
 
 Lemma Sok_log s v : Sok s -> Sok (set_log s v).
-Proof. intros [H1 H2 H3 H4 H5 H6 H7]. destruct s. constructor; assumption. Qed.
+Proof. intros [H1 H2 H3 H4 H5 H6 H7 H8]. destruct s. constructor; assumption. Qed.
 
 Lemma tok_log_msg msg : tok (fun _ => True) (log_msg msg).
 Proof. apply tok_modify. intros s Hs. apply Sok_log. exact Hs. Qed.
@@ -122,7 +137,7 @@ Proof. intros Hm Hr. apply tok_lift. intros env He Hf. split; [apply replaceMatc
 End InlineTok.
 
 (* setters *)
-Ltac sok_set := let H := fresh in intros H; destruct H as [? ? ? ? ? ? ?];
+Ltac sok_set := let H := fresh in intros H; destruct H as [? ? ? ? ? ? ? ?];
   match goal with s : session |- _ => destruct s end; constructor; cbn in *; auto.
 
 Lemma Sok_classes s v : rfree v -> Sok s -> Sok (set_classes s v).
@@ -135,35 +150,35 @@ Lemma Sok_attrs s v : rfree v -> Sok s -> Sok (set_attrs s v).
 Proof. intros Hv. sok_set. Qed.
 Lemma Sok_popts s v : Sok s -> Sok (set_popts s v).
 Proof. sok_set. Qed.
-Lemma Sok_listids s v : Sok s -> Sok (set_listids s v).
+Lemma Sok_listids s v : Sok s -> SokG v (set_listids s v).
 Proof. sok_set. Qed.
 Lemma Sok_ids s v : Sok s -> Sok (set_ids s v).
 Proof. sok_set. Qed.
 Lemma Sok_mode s v : Sok s -> Sok (set_mode s v).
 Proof.
-  intros [[[H1 H2 H3] H4] H5 H6 H7 H8 H9 H10]. destruct s. constructor; cbn in *; auto.
+  intros [[[H1 H2 H3] H4] H5 H6 H7 H8 H9 H10 H11]. destruct s. constructor; cbn in *; auto.
   constructor; [constructor|]; cbn in *; auto.
 Qed.
 Lemma Sok_cb s v : Sok s -> Sok (set_cb s v).
 Proof. sok_set. Qed.
 Lemma Sok_repl s v : rfree v -> Sok s -> Sok (set_repl s v).
 Proof.
-  intros Hv [[[H1 H2 H3] H4] H5 H6 H7 H8 H9 H10]. destruct s. constructor; cbn in *; auto.
+  intros Hv [[[H1 H2 H3] H4] H5 H6 H7 H8 H9 H10 H11]. destruct s. constructor; cbn in *; auto.
   constructor; [constructor|]; cbn in *; auto.
 Qed.
 Lemma Sok_macros s v : Forall (fun nv => rfree (snd nv)) v -> Sok s -> Sok (set_macros s v).
 Proof.
-  intros Hv [[[H1 H2 H3] H4] H5 H6 H7 H8 H9 H10]. destruct s. constructor; cbn in *; auto.
+  intros Hv [[[H1 H2 H3] H4] H5 H6 H7 H8 H9 H10 H11]. destruct s. constructor; cbn in *; auto.
   constructor; [constructor|]; cbn in *; auto.
 Qed.
 Lemma Sok_quotes s v : qdefs_ok v -> Sok s -> Sok (set_quotes s v).
 Proof.
-  intros Hv [[[H1 H2 H3] H4] H5 H6 H7 H8 H9 H10]. destruct s. constructor; cbn in *; auto.
+  intros Hv [[[H1 H2 H3] H4] H5 H6 H7 H8 H9 H10 H11]. destruct s. constructor; cbn in *; auto.
   constructor; [constructor|]; cbn in *; auto.
 Qed.
 Lemma Sok_repls s v : Forall (fun d => rfree (r_repl d)) v -> Forall filt_ok2 v -> Sok s -> Sok (set_repls s v).
 Proof.
-  intros Hv Hf [[[H1 H2 H3] H4] H5 H6 H7 H8 H9 H10]. destruct s. constructor; cbn in *; auto.
+  intros Hv Hf [[[H1 H2 H3] H4] H5 H6 H7 H8 H9 H10 H11]. destruct s. constructor; cbn in *; auto.
   constructor; [constructor|]; cbn in *; auto.
 Qed.
 Lemma Sok_dblocks s v : Forall dok v -> Sok s -> Sok (set_dblocks s v).
@@ -425,9 +440,9 @@ Proof.
       rewrite Hp in G; cbn in G; apply andb_prop in G as [G1 G2]; split; [exact G1|apply PeanoNat.Nat.ltb_lt; exact G2] end.
 Qed.
 
-Lemma Sok_init s : Sok (document_init s).
+Lemma Sok_init s : Sok s -> Sok (document_init s).
 Proof.
-  unfold document_init. constructor; cbn.
+  intros Hs0. unfold document_init. constructor; cbn; [| | | | | | |exact (so_listids _ _ Hs0)].
   - constructor; [apply env_okb_spec; vm_compute; reflexivity|]. cbn.
     repeat constructor; cbn; apply allc_nil.
   - assert (H : forallb filt_okb replacements_default = true) by (vm_compute; reflexivity).
@@ -449,7 +464,7 @@ Qed.
 Lemma setOption_reset_ok value : tok (fun _ => True) (setOption_reset value).
 Proof.
   unfold setOption_reset. destruct (reset_is_false value); [apply tok_ret; exact Logic.I|].
-  destruct (reset_is_true value); [|apply tok_log_msg]. apply tok_modify. intros s _. apply Sok_init.
+  destruct (reset_is_true value); [|apply tok_log_msg]. apply tok_modify. intros s Hs. apply Sok_init. exact Hs.
 Qed.
 
 Lemma setOption_doc_ok name value : rfree value -> tok (fun _ => True) (setOption_doc name value).
@@ -777,63 +792,112 @@ Qed.
 Lemma lit_close_groups delim : re_groups (lit_close delim) = O.
 Proof. reflexivity. Qed.
 
+End DBlocks.
+End WithL.
+
+(* ---- rules for the judgment without a claim on the list-id stack ---- *)
+Lemma tokR_of_tok {A} (Q : A -> Prop) (m : M A) : (forall L, tokLL L L Q m) -> tokR Q m.
+Proof. intros H L s Hs. specialize (H L s Hs). destruct (m s) as [[a s']|e|]; auto. destruct H. eauto. Qed.
+
+Lemma tokR_ret {A} (Q : A -> Prop) a : Q a -> tokR Q (ret a).
+Proof. intros H L s Hs. simpl. eauto. Qed.
+Lemma tokR_raise {A} (Q : A -> Prop) e : blk_exn e -> tokR Q (@raise A e).
+Proof. intros He L s Hs. exact He. Qed.
+Lemma tokR_fuel {A} (Q : A -> Prop) : tokR Q (@out_of_fuel A).
+Proof. intros L s Hs. exact Logic.I. Qed.
+Lemma tokR_bind {A B} (P : A -> Prop) (Q : B -> Prop) (m : M A) (f : A -> M B) :
+  tokR P m -> (forall a, P a -> tokR Q (f a)) -> tokR Q (bind m f).
+Proof.
+  intros Hm Hf L s Hs. specialize (Hm L s Hs). unfold bind. destruct (m s) as [[a s1]|e|]; auto.
+  destruct Hm as [Ha (L1 & H1)]. apply (Hf a Ha L1 s1 H1).
+Qed.
+Lemma tokR_weaken {A} (P Q : A -> Prop) m : (forall a, P a -> Q a) -> tokR P m -> tokR Q m.
+Proof. intros W H L s Hs. specialize (H L s Hs). destruct (m s) as [[a s1]|e|]; auto. destruct H; auto. Qed.
+Lemma tokR_bind_gets {A B} (Q : B -> Prop) (g : session -> A) (f : A -> M B) :
+  (forall L s0, SokG L s0 -> tokR Q (f (g s0))) -> tokR Q (bind (gets g) f).
+Proof. intros H L s Hs. unfold bind, gets. apply (H L s Hs L s Hs). Qed.
+Lemma tokR_gets {A} (Q : A -> Prop) (g : session -> A) : (forall L s, SokG L s -> Q (g s)) -> tokR Q (gets g).
+Proof. intros H L s Hs. simpl. eauto. Qed.
+Lemma tokR_modify (g : session -> session) : (forall L s, SokG L s -> SokG L (g s)) -> tokR (fun _ => True) (modify g).
+Proof. intros H L s Hs. simpl. eauto. Qed.
+Lemma tokR_seq {A B} (Q : B -> Prop) (m : M A) (k : M B) : tokR (fun _ => True) m -> tokR Q k -> tokR Q (bind m (fun _ => k)).
+Proof. intros Hm Hk. eapply tokR_bind; [exact Hm|]. intros _ _. exact Hk. Qed.
+Lemma tokR_when (b : bool) (m : M unit) : tokR (fun _ => True) m -> tokR (fun _ => True) (if b then m else ret tt).
+Proof. intros H. destruct b; [exact H|apply tokR_ret; exact Logic.I]. Qed.
+Lemma tokR_log_msg msg : tokR (fun _ => True) (log_msg msg).
+Proof. apply tokR_of_tok. intros L. apply tok_log_msg. Qed.
+
+Section DBlocks2.
+Variable fuel : nat.
+
+Ltac rf := repeat first
+  [ assumption | apply allc_nil
+  | match goal with G : forall k, allc _ (grp_s ?m k) |- allc _ (grp_s ?m _) => apply G end
+  | match goal with G : forall k, allc _ (grp_s ?m k) |- rfree (grp_s ?m _) => apply G end
+  | match goal with G : forall k, rfree (grp_s ?m k) |- _ (grp_s ?m _) => apply G end
+  | match goal with |- allc _ [_] => (intros ? [<-|[]]; cbv beta; lia) end
+  | match goal with |- rfree [_] => (intros ? [<-|[]]; cbv beta; lia) end
+  | apply allc_app; split | apply allc_strip | apply allc_tl | apply allc_drop_last
+  | apply rfree_lower | apply rfree_escape | apply rfree_str_of_N | apply allc_takeN | apply allc_dropN
+  | rf_lit ].
+
 Section WithDoc.
 Variable doc : str -> M str.
-Hypothesis Hdoc : forall text, rfree text -> tok rfree (doc text).
+Hypothesis Hdoc : forall text, rfree text -> tokR rfree (doc text).
 
 Definition dbres (r : str * reader) : Prop := rfree (fst r) /\ rdok (snd r).
 
 Lemma dblock_body_ok i d m rest : dok d -> (forall k, rfree (grp_s m k)) -> rdok rest ->
-  tok dbres (dblock_body fuel doc i d m rest).
+  tokR dbres (dblock_body fuel doc i d m rest).
 Proof.
   intros Hd G Hrest. unfold dblock_body.
-  eapply tok_bind with (P := rfree).
+  eapply tokR_bind with (P := rfree).
   { destruct (d_delim d).
-    - apply tok_ret, allc_nil.
-    - destruct (grp m 1) as [g|] eqn:Eg; apply tok_ret; [|apply allc_nil]. apply (grp_orf m 1 G). exact Eg.
-    - apply tok_seq; [apply tok_when, tok_modify; intros s Hs; apply Sok_classes; [rf|exact Hs]|].
-      apply tok_seq; [apply tok_modify; intros s Hs; apply Sok_set_closeRe; [left; apply lit_close_groups|exact Hs]|]. apply tok_ret, allc_nil. }
-  intros delimiterText Hdt. apply tok_bind_gets. intros s0 Hs0.
-  destruct (readTo _ rest) as [[content rd1]|e|] eqn:Er; [| |apply tok_fuel].
+    - apply tokR_ret, allc_nil.
+    - destruct (grp m 1) as [g|] eqn:Eg; apply tokR_ret; [|apply allc_nil]. apply (grp_orf m 1 G). exact Eg.
+    - apply tokR_seq; [apply tokR_when, tokR_modify; intros Lx s Hs; apply Sok_classes; [rf|exact Hs]|].
+      apply tokR_seq; [apply tokR_modify; intros Lx s Hs; apply Sok_set_closeRe; [left; apply lit_close_groups|exact Hs]|]. apply tokR_ret, allc_nil. }
+  intros delimiterText Hdt. apply tokR_bind_gets. intros L0 s0 Hs0.
+  destruct (readTo _ rest) as [[content rd1]|e|] eqn:Er; [| |apply tokR_fuel].
   2:{ exfalso. eapply (readTo_noraise _ (proj1 (proj2 (proj2 (nth_dok i _ d (so_dblocks s0 Hs0) Hd))))); eauto. }
   apply readTo_ok in Er as [Hcontent Hrd1]; [|exact Hrest].
-  apply tok_seq. { destruct (_ && _); [apply tok_log_msg|apply tok_ret; exact Logic.I]. }
-  apply tok_bind_gets. intros s1 _.
+  apply tokR_seq. { destruct (_ && _); [apply tokR_log_msg|apply tokR_ret; exact Logic.I]. }
+  apply tokR_bind_gets. intros L1 s1 _.
   remember (expand_merge (d_expand (nth i (s_dblocks s1) d)) (p_opts s1)) as expand eqn:Eexp. clear Eexp.
   match goal with |- context [join [10] ?L] => remember L as lines eqn:El end.
   assert (Hlines : Forall rfree lines).
   { subst lines. apply Forall_app. split; [|apply rdok_rfree; exact Hcontent]. destruct delimiterText; [constructor|constructor; [exact Hdt|constructor]]. }
   clear El.
-  eapply tok_bind with (P := rfree).
-  2:{ intros out Hout. apply tok_seq; [apply tok_modify; intros s Hs; apply Sok_popts; exact Hs|].
-      apply tok_ret. split; [exact Hout|apply rdok_tl; exact Hrd1]. }
-  destruct (truthy (e_skip expand)); [apply tok_ret, allc_nil|].
+  eapply tokR_bind with (P := rfree).
+  2:{ intros out Hout. apply tokR_seq; [apply tokR_modify; intros Lx s Hs; apply Sok_popts; exact Hs|].
+      apply tokR_ret. split; [exact Hout|apply rdok_tl; exact Hrd1]. }
+  destruct (truthy (e_skip expand)); [apply tokR_ret, allc_nil|].
   assert (Htext : rfree (join [10] lines)) by (apply allc_join; [rf|exact Hlines]).
-  eapply tok_bind with (P := rfree).
+  eapply tokR_bind with (P := rfree).
   { destruct (d_content d).
-    - apply tok_ret. exact Htext.
-    - apply macroDefContentFilter_ok; auto.
-    - apply tok_gets. intros s Hs. apply htmlSafeModeFilter_rfree; [|exact Htext].
+    - apply tokR_ret. exact Htext.
+    - apply tokR_of_tok; intros Lz; apply macroDefContentFilter_ok; auto.
+    - apply tokR_gets. intros Lx s Hs. apply htmlSafeModeFilter_rfree; [|exact Htext].
       apply (eo_repl _ (io_env _ (so_env s Hs))).
-    - destruct (indentedContentFilter _) as [t|e|] eqn:Ei; [| |apply tok_fuel].
-      2:{ unfold indentedContentFilter in Ei. destruct (re_search _ _); [discriminate|]. inversion Ei; subst. apply tok_raise; bx. }
-      apply tok_ret. eapply indentedContentFilter_ok; eauto.
-    - apply tok_ret. apply quoteParagraphContentFilter_ok. exact Htext. }
-  intros text Ht. apply tok_bind_gets. intros s2 Hs2.
+    - destruct (indentedContentFilter _) as [t|e|] eqn:Ei; [| |apply tokR_fuel].
+      2:{ unfold indentedContentFilter in Ei. destruct (re_search _ _); [discriminate|]. inversion Ei; subst. apply tokR_raise; bx. }
+      apply tokR_ret. eapply indentedContentFilter_ok; eauto.
+    - apply tokR_ret. apply quoteParagraphContentFilter_ok. exact Htext. }
+  intros text Ht. apply tokR_bind_gets. intros L2 s2 Hs2.
   assert (Hd' : dok (nth i (s_dblocks s2) d)) by (apply nth_dok; [apply (so_dblocks s2 Hs2)|exact Hd]).
   set (d' := nth i (s_dblocks s2) d) in *.
-  eapply tok_bind with (P := rfree).
-  { destruct (str_eqb (d_name d) _); [apply injectHtmlAttributes_ok; exact Ht|apply tok_ret; exact Ht]. }
-  intros text1 Ht1. eapply tok_bind with (P := rfree).
-  { destruct (str_eqb (d_name d) _); [apply tok_ret; apply Hd'|apply injectHtmlAttributes_ok; apply Hd']. }
-  intros opentag Hopen. eapply tok_bind with (P := rfree).
+  eapply tokR_bind with (P := rfree).
+  { destruct (str_eqb (d_name d) _); [apply tokR_of_tok; intros Lz; apply injectHtmlAttributes_ok; exact Ht|apply tokR_ret; exact Ht]. }
+  intros text1 Ht1. eapply tokR_bind with (P := rfree).
+  { destruct (str_eqb (d_name d) _); [apply tokR_ret; apply Hd'|apply tokR_of_tok; intros Lz; apply injectHtmlAttributes_ok; apply Hd']. }
+  intros opentag Hopen. eapply tokR_bind with (P := rfree).
   { destruct (truthy (e_container expand)).
-    - apply tok_seq; [apply tok_modify; intros s Hs; apply Sok_popts; exact Hs|]. apply Hdoc. exact Ht1.
-    - apply tok_replaceInline. exact Ht1. }
-  intros text2 Ht2. apply tok_bind_gets. intros s3 Hs3.
+    - apply tokR_seq; [apply tokR_modify; intros Lx s Hs; apply Sok_popts; exact Hs|]. apply Hdoc. exact Ht1.
+    - apply tokR_of_tok; intros Lz; apply tok_replaceInline. exact Ht1. }
+  intros text2 Ht2. apply tokR_bind_gets. intros L3 s3 Hs3.
   assert (Hclose : rfree (d_closeTag (nth i (s_dblocks s3) d'))) by (apply nth_dok; [apply (so_dblocks s3 Hs3)|exact Hd']).
   remember (d_closeTag (nth i (s_dblocks s3) d')) as closetag eqn:Ec. clear Ec.
-  destruct (str_eqb (d_name d) _ && str_eqb opentag _); cbv beta iota; apply tok_ret; rf;
+  destruct (str_eqb (d_name d) _ && str_eqb opentag _); cbv beta iota; apply tokR_ret; rf;
     match goal with |- _ (if ?b then _ else _) => destruct b end; rf.
 Qed.
 
@@ -893,12 +957,12 @@ Qed.
 Definition dbl_post (rd : reader) (r : option str * reader) : Prop :=
   orf (fst r) /\ rdok (snd r) /\ (fst r = None -> rdne (snd r)).
 
-Lemma dblock_loop_ok allowed : forall k i rd, rdok rd -> rdne rd -> tok (dbl_post rd) (dblock_loop fuel doc k i rd allowed).
+Lemma dblock_loop_ok allowed : forall k i rd, rdok rd -> rdne rd -> tokR (dbl_post rd) (dblock_loop fuel doc k i rd allowed).
 Proof.
   induction k as [|k IH]; intros i rd Hrd Hne; cbn [dblock_loop].
-  { apply tok_ret. split; [intros t Ht; discriminate|]. split; [exact Hrd|auto]. }
-  apply tok_bind_gets. intros s0 Hs0. destruct (nth_error (s_dblocks s0) i) as [d|] eqn:En.
-  2:{ apply tok_ret. split; [intros t Ht; discriminate|]. split; [exact Hrd|auto]. }
+  { apply tokR_ret. split; [intros t Ht; discriminate|]. split; [exact Hrd|auto]. }
+  apply tokR_bind_gets. intros L0 s0 Hs0. destruct (nth_error (s_dblocks s0) i) as [d|] eqn:En.
+  2:{ apply tokR_ret. split; [intros t Ht; discriminate|]. split; [exact Hrd|auto]. }
   assert (Hd : dok d).
   { apply nth_error_In in En. pose proof (so_dblocks s0 Hs0) as H. rewrite Forall_forall in H. auto. }
   destruct (_ && _); [apply IH; assumption|].
@@ -906,8 +970,8 @@ Proof.
   pose proof (lfree_rfree _ Hcur0) as Hcur.
   destruct (re_search (d_openRe d) cur) as [m|] eqn:E; [|apply IH; assumption].
   pose proof (re_search_groups (fun x => 2 < x) _ _ _ E Hcur) as G.
-  assert (Body : tok (dbl_post (cur :: rest)) (r <- dblock_body fuel doc i d m rest ;; ret (Some (fst r), snd r))).
-  { eapply tok_bind; [apply dblock_body_ok; auto|]. intros [out rd'] [H1 H2]. apply tok_ret. split; [|split; [exact H2|intros Hx; discriminate]].
+  assert (Body : tokR (dbl_post (cur :: rest)) (r <- dblock_body fuel doc i d m rest ;; ret (Some (fst r), snd r))).
+  { eapply tokR_bind; [apply dblock_body_ok; auto|]. intros [out rd'] [H1 H2]. apply tokR_ret. split; [|split; [exact H2|intros Hx; discriminate]].
     intros t Ht. inversion Ht; subst. exact H1. }
   destruct Hd as (_ & _ & _ & [[Hp Hre]|(Hp & Hn & Hbs)]); rewrite Hp.
   - (* the paragraph *)
@@ -918,21 +982,21 @@ Proof.
     destruct (grp0 m) as [|c0 g0] eqn:E0; [congruence|].
     destruct (c0 =? 92) eqn:Ec.
     { apply N.eqb_eq in Ec. subst c0. pose proof (escape_tl _ _ _ _ E E0 Hbs) as Htl.
-      eapply tok_weaken; [|apply IH; [constructor; [apply allc_tl; exact Hcur0|exact Hrest]|exact Htl]].
+      eapply tokR_weaken; [|apply IH; [constructor; [apply allc_tl; exact Hcur0|exact Hrest]|exact Htl]].
       intros r (R1 & R2 & R3). split; [exact R1|]. split; [exact R2|exact R3]. }
     destruct (negb (db_verify d m)); [apply IH; assumption|exact Body].
 Qed.
 
-Lemma dblocks_render_ok rd allowed : rdok rd -> rdne rd -> tok (dbl_post rd) (dblocks_render fuel doc rd allowed).
-Proof. intros H Hne. unfold dblocks_render. apply tok_bind_gets. intros s0 _. apply dblock_loop_ok; assumption. Qed.
+Lemma dblocks_render_ok rd allowed : rdok rd -> rdne rd -> tokR (dbl_post rd) (dblocks_render fuel doc rd allowed).
+Proof. intros H Hne. unfold dblocks_render. apply tokR_bind_gets. intros L0 s0 _. apply dblock_loop_ok; assumption. Qed.
 End WithDoc.
-End DBlocks.
+End DBlocks2.
 
 (* ---- lists ---- *)
 Section Lists.
 Variable fuel : nat.
 Variable doc : str -> M str.
-Hypothesis Hdoc : forall text, rfree text -> tok rfree (doc text).
+Hypothesis Hdoc : forall text, rfree text -> tokR rfree (doc text).
 
 Ltac rf := repeat first
   [ assumption | apply allc_nil
@@ -1017,6 +1081,11 @@ Proof.
   destruct (grp0 m) as [|c0 g0]; [congruence|]. destruct (c0 =? 92); [discriminate|]. destruct (grp m _); discriminate.
 Qed.
 
+Section ListsL.
+Variable L : list str.
+Local Notation Sok := (SokG L).
+Local Notation tok := (tokLL L L).
+
 Lemma matchItem_ok rd : rdok rd -> tok (mires rd) (matchItem rd).
 Proof.
   intros Hrd. unfold matchItem. destruct (matchItem_loop lists_defs rd) as [r|e|] eqn:E; [| |apply tok_fuel].
@@ -1039,10 +1108,45 @@ Proof.
     + apply IH; [inversion Hrd'; assumption|exact Hacc|lia].
 Qed.
 
-Lemma pop_listid_ok : tok (fun _ => True) pop_listid.
+End ListsL.
+
+(* rules that change the ghost stack *)
+Lemma tokLL_bind {A B} L1 L2 L3 (P : A -> Prop) (Q : B -> Prop) (m : M A) (f : A -> M B) :
+  tokLL L1 L2 P m -> (forall a, P a -> tokLL L2 L3 Q (f a)) -> tokLL L1 L3 Q (bind m f).
 Proof.
-  unfold pop_listid. apply tok_bind_gets. intros s0 _. destruct (frev (s_listids s0)) as [|x0 r0]; [apply tok_raise; bx|].
-  apply tok_modify. intros sx Hsx. apply Sok_listids. exact Hsx.
+  intros Hm Hf s Hs. specialize (Hm s Hs). unfold bind. destruct (m s) as [[a s1]|e|]; auto.
+  destruct Hm as [Ha H1]. apply Hf; auto.
+Qed.
+
+Lemma tokLL_seq {A B} L1 L2 L3 (Q : B -> Prop) (m : M A) (k : M B) :
+  tokLL L1 L2 (fun _ => True) m -> tokLL L2 L3 Q k -> tokLL L1 L3 Q (bind m (fun _ => k)).
+Proof. intros Hm Hk. eapply tokLL_bind; [exact Hm|]. intros _ _. exact Hk. Qed.
+
+Lemma tokLL_modify L1 L2 (g : session -> session) : (forall s, SokG L1 s -> SokG L2 (g s)) -> tokLL L1 L2 (fun _ => True) (modify g).
+Proof. intros H s Hs. simpl. auto. Qed.
+
+Lemma push_ok L id : tokLL L (L ++ [id]) (fun _ => True) (modify (fun s => set_listids s (s_listids s ++ [id]))).
+Proof.
+  apply tokLL_modify. intros s Hs. pose proof (so_listids _ _ Hs) as HL. rewrite HL. apply (Sok_listids L). exact Hs.
+Qed.
+
+(* the pop at the end of renderList finds the marker pushed at its start *)
+Lemma pop_listid_ok L id : tokLL (L ++ [id]) L (fun _ => True) pop_listid.
+Proof.
+  intros s Hs. unfold pop_listid, bind, gets. pose proof (so_listids _ _ Hs) as HL. rewrite HL.
+  rewrite frev_rev, rev_unit. unfold modify. split; [exact Logic.I|].
+  replace (frev (rev L)) with L by (rewrite frev_rev, rev_involutive; reflexivity). apply (Sok_listids (L ++ [id])). exact Hs.
+Qed.
+
+(* a nested render between saving and restoring the stack *)
+Lemma tok_saved {A B} L (P : A -> Prop) (Q : B -> Prop) (m : M A) (k : A -> M B) :
+  tokR P m -> (forall r, P r -> tokLL L L Q (k r)) ->
+  tokLL L L Q (saved <- gets s_listids ;; modify (fun s => set_listids s []) ;;; r <- m ;; modify (fun s => set_listids s saved) ;;; k r).
+Proof.
+  intros Hm Hk s Hs. unfold bind, gets, modify. pose proof (so_listids _ _ Hs) as HL.
+  specialize (Hm [] (set_listids s []) (Sok_listids L s [] Hs)).
+  destruct (m (set_listids s [])) as [[r s1]|e|]; auto. destruct Hm as [Hr (L1 & H1)].
+  rewrite HL. apply (Hk r Hr). apply Sok_listids with (L := L1). exact H1.
 Qed.
 
 Definition lres (r : str * option item * reader) : Prop := rfree (fst (fst r)) /\ oitem (snd (fst r)) /\ rdok (snd r).
@@ -1056,10 +1160,10 @@ Proof. intros. unfold lres. cbn. auto. Qed.
 Lemma ilres_intro nx rd il at' : oitem nx -> rdok rd -> rfree il -> rfree at' -> ilres (nx, rd, il, at').
 Proof. intros. unfold ilres. auto. Qed.
 
-Definition P_list (n : nat) := forall it rd, item_ok it -> rdok rd -> tok lres (renderList fuel doc n it rd).
-Definition P_items (n : nat) := forall it rd, item_ok it -> rdok rd -> tok lres (renderItems fuel doc n it rd).
-Definition P_item (n : nat) := forall it rd, item_ok it -> rdok rd -> tok lres (renderListItem fuel doc n it rd).
-Definition P_loop (n : nat) := forall rd il at' dn, rdok rd -> rfree il -> rfree at' -> tok ilres (itemLoop fuel doc n rd il at' dn).
+Definition P_list (n : nat) := forall L it rd, item_ok it -> rdok rd -> tokLL L L lres (renderList fuel doc n it rd).
+Definition P_items (n : nat) := forall L it rd, item_ok it -> rdok rd -> tokLL L L lres (renderItems fuel doc n it rd).
+Definition P_item (n : nat) := forall L it rd, item_ok it -> rdok rd -> tokLL L L lres (renderListItem fuel doc n it rd).
+Definition P_loop (n : nat) := forall L rd il at' dn, rdok rd -> rfree il -> rfree at' -> tokLL L L ilres (itemLoop fuel doc n rd il at' dn).
 
 Lemma lists_mutual : forall n, P_list n /\ P_items n /\ P_item n /\ P_loop n.
 Proof.
@@ -1067,20 +1171,20 @@ Proof.
   { repeat split; intro; intros; apply tok_fuel. }
   split; [|split; [|split]].
   - (* renderList *)
-    intros it rd Hit Hrd. cbn [renderList]. pose proof Hit as Hit0. destruct Hit as (Hd & G & Hid & Htxt & Hterm). pose proof (proj1 Hd) as (H1 & H2 & H3 & H4 & H5 & H6).
-    apply tok_seq; [apply tok_modify; intros s Hs; apply Sok_listids; exact Hs|].
-    eapply tok_bind; [apply injectHtmlAttributes_ok; exact H1|]. intros open Hopen.
-    eapply tok_bind; [apply IHs; [exact Hit0|exact Hrd]|]. intros [[body nx] rd'] (Hb & Hn & Hr). cbn [fst snd] in *.
-    apply tok_seq; [apply pop_listid_ok|]. apply tok_ret, lres_intro; auto. rf.
+    intros L it rd Hit Hrd. cbn [renderList]. pose proof Hit as Hit0. destruct Hit as (Hd & G & Hid & Htxt & Hterm). pose proof (proj1 Hd) as (H1 & H2 & H3 & H4 & H5 & H6).
+    eapply tokLL_seq; [apply push_ok|].
+    eapply tokLL_bind; [apply injectHtmlAttributes_ok; exact H1|]. intros open Hopen.
+    eapply tokLL_bind; [apply IHs; [exact Hit0|exact Hrd]|]. intros [[body nx] rd'] (Hb & Hn & Hr). cbn [fst snd] in *.
+    eapply tokLL_seq; [apply pop_listid_ok|]. apply tok_ret, lres_intro; auto. rf.
   - (* renderItems *)
-    intros it rd Hit Hrd. cbn [renderItems].
+    intros L it rd Hit Hrd. cbn [renderItems].
     eapply tok_bind; [apply IHi; assumption|]. intros [[out nx] rd'] (Hb & Hn & Hr). cbn [fst snd] in *.
     destruct nx as [nx|]; [|apply tok_ret, lres_intro; auto using oitem_none].
     destruct (str_eqb (it_id nx) (it_id it)); [|apply tok_ret, lres_intro; auto].
     eapply tok_bind; [apply IHs; [apply Hn; reflexivity|exact Hr]|]. intros [[out2 nn] rd2] (Hb2 & Hn2 & Hr2). cbn [fst snd] in *.
     apply tok_ret, lres_intro; auto. rf.
   - (* renderListItem *)
-    intros it rd Hit Hrd. cbn [renderListItem]. destruct Hit as (Hd & G & Hid & Htxt & Hterm). pose proof (proj1 Hd) as (H1 & H2 & H3 & H4 & H5 & H6).
+    intros L it rd Hit Hrd. cbn [renderListItem]. destruct Hit as (Hd & G & Hid & Htxt & Hterm). pose proof (proj1 Hd) as (H1 & H2 & H3 & H4 & H5 & H6).
     eapply tok_bind with (P := rfree).
     { destruct (nonempty (li_termOpen (it_def it))) eqn:Eterm; [|apply tok_ret, allc_nil].
       eapply tok_bind; [apply injectHtmlAttributes_ok; exact H5|]. intros t Ht.
@@ -1098,7 +1202,7 @@ Proof.
     { apply tok_replaceInline. rf. }
     intros text Htext. apply tok_ret, lres_intro; auto. rf.
   - (* itemLoop *)
-    intros rd il at' dn Hrd Hil Hat. cbn [itemLoop].
+    intros L rd il at' dn Hrd Hil Hat. cbn [itemLoop].
     eapply tok_bind; [apply consumeBlockAttributes_ok; [exact Hrd|apply allc_nil|lia]|].
     intros [[blanks out] rd1] (Hout & Hrd1 & Hne1). cbn [fst snd] in *.
     assert (Hat2 : rfree (at' ++ out)) by rf.
@@ -1111,67 +1215,75 @@ Proof.
       apply tok_ret, ilres_intro; auto. rf.
     + specialize (Hne2 eq_refl Hne1). destruct dn. { apply tok_ret, ilres_intro; auto. }
       destruct (blanks =? 0)%Z.
-      { apply tok_bind_gets. intros s0 _.
-        apply tok_seq; [apply tok_modify; intros s Hs; apply Sok_listids; exact Hs|].
-        eapply tok_bind; [apply dblocks_render_ok; [exact Hdoc|exact Hrd2|exact Hne2]|]. intros [o rd3] (Ho & Hrd3 & Hne3). cbn [fst snd] in *.
-        apply tok_seq; [apply tok_modify; intros s Hs; apply Sok_listids; exact Hs|].
+      { eapply tok_saved; [apply dblocks_render_ok; [exact Hdoc|exact Hrd2|exact Hne2]|]. intros [o rd3] (Ho & Hrd3 & Hne3). cbn [fst snd] in *.
         destruct o as [out3|].
         - apply IHo; [exact Hrd3|exact Hil|]. rf. apply Ho. reflexivity.
         - specialize (Hne3 eq_refl). destruct rd3 as [|cur rest]; [destruct Hne3|]. inversion Hrd3 as [|? ? Hc0 Hr0]; subst.
           pose proof (lfree_rfree _ Hc0) as Hc. apply IHo; [assumption| |exact Hat2]. rf. }
       destruct (blanks =? 1)%Z; [|apply tok_fuel].
-      eapply tok_bind; [apply dblocks_render_ok; [exact Hdoc|exact Hrd2|exact Hne2]|]. intros [o rd3] (Ho & Hrd3 & Hne3). cbn [fst snd] in *.
+      eapply tok_saved; [apply dblocks_render_ok; [exact Hdoc|exact Hrd2|exact Hne2]|]. intros [o rd3] (Ho & Hrd3 & Hne3). cbn [fst snd] in *.
       destruct o as [out3|].
       * apply IHo; [exact Hrd3|exact Hil|]. rf. apply Ho. reflexivity.
       * apply tok_ret, ilres_intro; auto.
 Qed.
 
-Lemma lists_render_ok n rd : rdok rd -> tok (fun r => orf (fst r) /\ rdok (snd r) /\ (fst r = None -> rdne rd -> rdne (snd r))) (lists_render fuel doc n rd).
+Lemma lists_render_ok n rd : rdok rd -> tokR (fun r => orf (fst r) /\ rdok (snd r) /\ (fst r = None -> rdne rd -> rdne (snd r))) (lists_render fuel doc n rd).
 Proof.
-  intros Hrd. unfold lists_render. eapply tok_bind; [apply matchItem_ok; exact Hrd|]. intros [o rd'] (Ho & Hrd' & Hne'). cbn [fst snd] in *.
-  destruct o as [it|]; [|apply tok_ret; split; [intros t Ht; discriminate|split; [exact Hrd'|intros _; apply Hne'; reflexivity]]].
-  apply tok_seq; [apply tok_modify; intros s Hs; apply Sok_listids; exact Hs|].
-  eapply tok_bind; [apply (proj1 (lists_mutual n)); [apply Ho; reflexivity|exact Hrd']|].
-  intros [[out nx] rd2] (Hout & _ & Hrd2). cbn [fst snd] in *.
-  apply tok_bind_gets. intros s0 _.
-  apply tok_seq; [destruct (s_listids s0); [apply tok_ret; exact Logic.I|apply tok_log_msg]|].
-  apply tok_ret. split; [intros t Ht; inversion Ht; subst; exact Hout|split; [exact Hrd2|intros Hx; discriminate]].
+  intros Hrd. unfold lists_render. eapply tokR_bind; [apply tokR_of_tok; intros L0; apply matchItem_ok; exact Hrd|]. intros [o rd'] (Ho & Hrd' & Hne'). cbn [fst snd] in *.
+  destruct o as [it|]; [|apply tokR_ret; split; [intros t Ht; discriminate|split; [exact Hrd'|intros _; apply Hne'; reflexivity]]].
+  (* the stack is reset, the list rendered from the empty stack *)
+  intros L0 s Hs. unfold bind at 1. unfold modify at 1.
+  assert (T : tokLL [] [] (fun r : option str * reader => orf (fst r) /\ rdok (snd r) /\ (fst r = None -> rdne rd -> rdne (snd r)))
+           (r <- renderList fuel doc n it rd' ;;
+            (let '(out, _, rd2) := r in
+             ids <- gets s_listids ;;
+             (match ids with [] => ret tt | _ :: _ => log_msg $"panic: list stack failure" end) ;;; ret (Some out, rd2)))).
+  { eapply tok_bind; [apply (proj1 (lists_mutual n)); [apply Ho; reflexivity|exact Hrd']|].
+    intros [[out nx] rd2] (Hout & _ & Hrd2). cbn [fst snd] in *.
+    apply tok_bind_gets. intros s0 _.
+    apply tok_seq; [destruct (s_listids s0); [apply tok_ret; exact Logic.I|apply tok_log_msg]|].
+    apply tok_ret. split; [intros t Ht; inversion Ht; subst; exact Hout|split; [exact Hrd2|intros Hx; discriminate]]. }
+  specialize (T (set_listids s []) (Sok_listids L0 s [] Hs)).
+  match goal with |- match ?X with _ => _ end => destruct X as [[a s']|e|] end; auto. destruct T. eauto.
 Qed.
 
-Lemma doc_loop_ok : forall n rd, rdok rd -> tok rfree (doc_loop fuel doc n rd).
+Lemma doc_loop_ok : forall n rd, rdok rd -> tokR rfree (doc_loop fuel doc n rd).
 Proof.
-  induction n as [|n IH]; intros rd Hrd; cbn [doc_loop]; [apply tok_fuel|].
+  induction n as [|n IH]; intros rd Hrd; cbn [doc_loop]; [apply tokR_fuel|].
   pose proof (rdok_skip rd Hrd) as Hs. pose proof (rdne_skip rd) as Hne.
-  destruct (skipBlankLines rd) as [|l rd0] eqn:E; [apply tok_ret, allc_nil|]. specialize (Hne ltac:(discriminate)).
-  assert (Cont : forall out rd', rfree out -> rdok rd' -> tok rfree (rest <- doc_loop fuel doc n rd' ;; ret (out ++ rest))).
-  { intros out rd' Ho Hr. eapply tok_bind; [apply IH; exact Hr|]. intros rest Hrest. apply tok_ret. rf. }
-  eapply tok_bind; [apply lineblocks_render_ok; [exact Hs|discriminate]|]. intros [o rd1] (Ho & Hrd1 & Hn1). cbn [fst snd] in *.
+  destruct (skipBlankLines rd) as [|l rd0] eqn:E; [apply tokR_ret, allc_nil|]. specialize (Hne ltac:(discriminate)).
+  assert (Cont : forall out rd', rfree out -> rdok rd' -> tokR rfree (rest <- doc_loop fuel doc n rd' ;; ret (out ++ rest))).
+  { intros out rd' Ho Hr. eapply tokR_bind; [apply IH; exact Hr|]. intros rest Hrest. apply tokR_ret. rf. }
+  eapply tokR_bind; [apply tokR_of_tok; intros L0; apply lineblocks_render_ok; [exact Hs|discriminate]|]. intros [o rd1] (Ho & Hrd1 & Hn1). cbn [fst snd] in *.
   destruct o as [out|]; [apply Cont; [apply Ho; reflexivity|exact Hrd1]|]. destruct (Hn1 eq_refl) as [_ Hn1']. specialize (Hn1' Hne).
-  eapply tok_bind; [apply lists_render_ok; exact Hrd1|]. intros [o rd2] (Ho2 & Hrd2 & Hn2). cbn [fst snd] in *.
+  eapply tokR_bind; [apply lists_render_ok; exact Hrd1|]. intros [o rd2] (Ho2 & Hrd2 & Hn2). cbn [fst snd] in *.
   destruct o as [out|]; [apply Cont; [apply Ho2; reflexivity|exact Hrd2]|]. specialize (Hn2 eq_refl Hn1').
-  eapply tok_bind; [apply dblocks_render_ok; [exact Hdoc|exact Hrd2|exact Hn2]|]. intros [o rd3] (Ho3 & Hrd3 & _). cbn [fst snd] in *.
-  destruct o as [out|]; [apply Cont; [apply Ho3; reflexivity|exact Hrd3]|apply tok_fuel].
+  eapply tokR_bind; [apply dblocks_render_ok; [exact Hdoc|exact Hrd2|exact Hn2]|]. intros [o rd3] (Ho3 & Hrd3 & _). cbn [fst snd] in *.
+  destruct o as [out|]; [apply Cont; [apply Ho3; reflexivity|exact Hrd3]|apply tokR_fuel].
 Qed.
 End Lists.
 
 (* ---- document.render and the API ---- *)
-Theorem doc_render_ok : forall n text, tok rfree (doc_render n text).
+Theorem doc_render_ok : forall n text, tokR rfree (doc_render n text).
 Proof.
-  induction n as [|n IH]; intros text; cbn [doc_render]; [apply tok_fuel|].
+  induction n as [|n IH]; intros text; cbn [doc_render]; [apply tokR_fuel|].
   apply doc_loop_ok; [intros t _; apply IH|apply mk_reader_ok].
 Qed.
 
-Theorem api_render_ok n src o : opts_ok o -> tok rfree (api_render n src o).
+Theorem api_render_ok n src o : opts_ok o -> tokR rfree (api_render n src o).
 Proof.
-  intros Ho. unfold api_render. apply tok_bind_gets. intros s0 _.
-  apply tok_seq; [destruct (_ =? _)%Z; [apply tok_modify; intros s _; apply Sok_init|apply tok_ret; exact Logic.I]|].
-  apply tok_seq; [apply updateFrom_ok; exact Ho|]. apply doc_render_ok.
+  intros Ho. unfold api_render. apply tokR_bind_gets. intros L0 s0 _.
+  apply tokR_seq; [destruct (_ =? _)%Z; [apply tokR_modify; intros L1 s Hs; apply Sok_init; exact Hs|apply tokR_ret; exact Logic.I]|].
+  apply tokR_seq; [apply tokR_of_tok; intros L1; apply updateFrom_ok; exact Ho|]. apply doc_render_ok.
 Qed.
 
 (* ---- every reachable session ---- *)
+(* the invariant with the list-id stack forgotten *)
+Definition Sok (s : session) : Prop := exists L, SokG L s.
+
 Lemma Sok_S0 : Sok S0.
 Proof.
-  constructor; cbn; try apply allc_nil.
+  exists []. constructor; cbn; try apply allc_nil; try reflexivity.
   - constructor; [constructor; cbn; [apply allc_nil|constructor|constructor]|constructor].
   - constructor.
   - constructor.
@@ -1179,12 +1291,16 @@ Qed.
 
 Definition out_ok (o : outcome) : Prop := match o with OOk html => rfree html | _ => True end.
 
+Lemma api_render_spec n src o s : opts_ok o -> Sok s ->
+  match api_render n src o s with Ok (html, s') => rfree html /\ Sok s' | Raise e => blk_exn e | Fuel => True end.
+Proof. intros Ho [L Hs]. exact (api_render_ok n src o Ho L s Hs). Qed.
+
 Theorem run_ok n : forall h s, Sok s -> Forall (fun so => opts_ok (snd so)) h ->
   Forall out_ok (fst (run n s h)) /\ Sok (snd (run n s h)).
 Proof.
   induction h as [|[src o] h IH]; intros s Hs Ho; cbn [run]; [split; [constructor|exact Hs]|].
   inversion Ho as [|? ? Ho1 Hoh]; subst. cbn [snd] in Ho1.
-  pose proof (api_render_ok n src o Ho1 s Hs) as H. destruct (api_render n src o s) as [[html s']|e|].
+  pose proof (api_render_spec n src o s Ho1 Hs) as H. destruct (api_render n src o s) as [[html s']|e|].
   - destruct H as [Hh Hs']. specialize (IH s' Hs' Hoh). destruct (run n s' h) as [l s'']. cbn in *.
     destruct IH. split; [constructor; auto|assumption].
   - cbn. split; [repeat constructor|exact Hs].
@@ -1199,16 +1315,16 @@ Proof.
   intros s n src He Hs H. pose proof (placeholder_protocol s n src He Hs) as P. rewrite H in P. apply P. reflexivity.
 Qed.
 
+Lemma reachable_Sok : forall n h, Forall (fun so => opts_ok (snd so)) h -> Sok (snd (run n S0 h)).
+Proof. intros n h H. apply (run_ok n h S0 Sok_S0 H). Qed.
+
 Lemma reachable_env_ok : forall n h, Forall (fun so => opts_ok (snd so)) h -> env_ok (ienv_of (snd (run n S0 h))).
-Proof. intros n h H. apply io_env, so_env. apply (run_ok n h S0 Sok_S0 H). Qed.
+Proof. intros n h H. destruct (reachable_Sok n h H) as [L Hs]. apply io_env. apply (so_env _ Hs). Qed.
 
 Lemma render_reserved_free : forall n src o s, opts_ok o -> Sok s ->
   match api_render n src o s with Ok (html, s') => rfree html /\ Sok s' | _ => True end.
-Proof. intros n src o s Ho Hs. pose proof (api_render_ok n src o Ho s Hs) as H. destruct (api_render n src o s) as [[h s']|e|]; auto. Qed.
+Proof. intros n src o s Ho Hs. pose proof (api_render_spec n src o s Ho Hs) as H. destruct (api_render n src o s) as [[h s']|e|]; auto. Qed.
 
 (* the exceptions that can escape the API *)
 Theorem api_render_raises_only : forall n src o s e, opts_ok o -> Sok s -> api_render n src o s = Raise e -> blk_exn e.
-Proof. intros n src o s e Ho Hs H. pose proof (api_render_ok n src o Ho s Hs) as R. rewrite H in R. exact R. Qed.
-
-Lemma reachable_Sok : forall n h, Forall (fun so => opts_ok (snd so)) h -> Sok (snd (run n S0 h)).
-Proof. intros n h H. apply (run_ok n h S0 Sok_S0 H). Qed.
+Proof. intros n src o s e Ho Hs H. pose proof (api_render_spec n src o s Ho Hs) as R. rewrite H in R. exact R. Qed.
